@@ -60,7 +60,50 @@ def instances(tier):
         for dt in ("uint8", "float32", "int32"):
             for m in (("all", "sparse") if cls == "MaskedImage" else (None,)):
                 out.append(("image_dtype", {"cls": cls, "dtype": dt, "mask": m}))
+    for cls in K.SHAPES:
+        for dt in ("int64", "float32"):
+            out.append(("shape_dtype", {"cls": cls, "dtype": dt}))
     return out
+
+
+def shape_dtype(F, ob, cfg):
+    """shapes whose coordinates have a narrow concrete dtype: from_vector(w).as_vector() must still be w"""
+    from collections import OrderedDict
+
+    import menpo.shape as ms
+    from menpo.image import Image
+
+    cls = cfg["cls"]
+    pts = np.array([[0, 0], [3, 1], [1, 4], [5, 5]]).astype(cfg["dtype"])
+    tl = np.array([[0, 1, 2], [1, 3, 2]])
+    und = np.array([[0, 1], [1, 2], [2, 0], [2, 3]])
+    if cls == "PointCloud":
+        o = ms.PointCloud(pts)
+    elif cls == "TriMesh":
+        o = ms.TriMesh(pts, trilist=tl)
+    elif cls == "ColouredTriMesh":
+        o = ms.ColouredTriMesh(pts, trilist=tl, colours=np.linspace(0, 1, 12).reshape(4, 3))
+    elif cls == "TexturedTriMesh":
+        o = ms.TexturedTriMesh(pts, np.linspace(0, 1, 8).reshape(4, 2), Image(np.linspace(0, 1, 4).reshape(1, 2, 2)), trilist=tl)
+    elif cls == "PointUndirectedGraph":
+        o = ms.PointUndirectedGraph.init_from_edges(pts, und)
+    elif cls == "PointDirectedGraph":
+        o = ms.PointDirectedGraph.init_from_edges(pts, np.array([[0, 1], [1, 2], [2, 0], [0, 2]]))
+    elif cls == "PointTree":
+        o = ms.PointTree.init_from_edges(pts, np.array([[1, 0], [1, 2], [2, 3]]), 1)
+    else:
+        m1 = np.array([True, True, False, False])
+        o = ms.LabelledPointUndirectedGraph.init_from_edges(pts, und, OrderedDict([("zeta", m1), ("alpha", ~m1 | True)]))
+    before = o.points.copy()
+    w = F.reals("w", (o.n_parameters,), -3, 3)
+    o3 = o.from_vector(w)
+    ob.true("same_class", type(o3) is type(o))
+    ob.eq("from_vector(w).as_vector()=w", o3.as_vector(), w)
+    ob.true("original.points_unchanged", bool(np.array_equal(o.points, before)) and o.points.dtype == before.dtype)
+    v = o.as_vector()
+    ob.true("as_vector.readonly", v.flags.writeable is False)
+    o2 = o.from_vector(v)
+    ob.true("roundtrip.points", bool(np.array_equal(np.asarray(o2.points, dtype=float), before.astype(float))))
 
 
 def _asvec_clauses(F, ob, o, payload):
